@@ -3,7 +3,7 @@ import MesaModel.Model.Layers
 Line-protocol driver for the Layers model (C11, C18-layers).  One output line per input line.
 Producer: harness/layers_common.py.
 
-  scenario new|single|multi DIMS CAP GRIDCLASS TORUS    reset   (DIMS = 2x3, CAP = 0 for unbounded,
+  scenario new|single|multi DIMS CAP GRIDCLASS TORUS    reset   (DIMS = 2x3, CAP = 0 for unbounded, `zero` for a capacity of 0,
                                               GRIDCLASS = moore|vonneumann|hex|-, TORUS = 0|1: harness only)
   create NAME DTYPE DEFAULT                   create_property_layer / PropertyLayer + add_property_layer
   new NAME DIMS DTYPE DEFAULT                 a free-standing PropertyLayer
@@ -13,10 +13,15 @@ Producer: harness/layers_common.py.
   cset2 LID C V | cget2 LID C                 the cell attribute on a *second* grid the layer is added to as well (new)
   setcells LID V COND                         COND = - | gt:3 | lt:3 | ge:3 | le:3 | eq:3 | ne:3 | ufz
   setfrom LID H COND                          set_cells(<array held as H>, COND): an array value, one entry per cell
-  modify LID ufunc|fn OP V COND               OP = add sub mul max min and or xor (V int | none), neg not (V none)
+  modify LID ufunc|fn OP V COND               OP = add sub mul max min and or xor (V int | none), neg not (V none); a COND
+                                              and the fn form go through np.vectorize: `err Value size0` on a layer
+                                              without entries (so does a COND of setcells / setfrom)
   modcell LID C ufunc|fn OP V                 legacy modify_cell (V typed: the result is cast back into the array)
   fromdata NAME H                             PropertyLayer.from_data(NAME, <array held as H>): a free-standing layer (copy)
   grab H LID | hget H C | hset H C V | hdump H
+  grabmask H                                  legacy: H = grid.empty_mask (the live array)
+  rebind LID H                                legacy: layer.data = <array held as H> (a plain attribute: the layer now
+                                              *shares* that array); not an op of the model's histories
   dump LID | dumpn NAME | lsel LID COND | agg LID sum|max|min
   gset NAME                                   grid.NAME = <a plain object>  (new: HasPropertyLayers.__setattr__)
   place A C | move A C | remove A | empties
@@ -184,9 +189,9 @@ def parseOp (dims : List Nat) (impl : Impl) (geo : Geo) : List String → Option
           -- uniform only for + - * and the logical operators)
           let uop ← parseUOp op
           if kind = "ufunc" || (kind = "fn" && uop != .max && uop != .min) then
-            pure (.modifyU (← l.toNat?) uop x (← parseCond cond))
+            pure (.modifyU (← l.toNat?) (kind == "fn") uop x (← parseCond cond))
           else none
-      | none => do pure (.modifyCells (← l.toNat?) (← parseOper kind op v) (← parseCond cond))
+      | none => do pure (.modifyCells (← l.toNat?) (kind == "fn") (← parseOper kind op v) (← parseCond cond))
   | ["modcell", l, c, kind, op, v] =>
       match parseVal v with
       | some x => do
@@ -196,6 +201,7 @@ def parseOp (dims : List Nat) (impl : Impl) (geo : Geo) : List String → Option
       | none => do pure (.modifyCell (← l.toNat?) (← parseCoord c) (← parseOper kind op v))
   | ["fromdata", n, h] => do pure (.fromData n (← h.toNat?))
   | ["grab", h, l] => do pure (.grab (← h.toNat?) (← l.toNat?))
+  | ["grabmask", h] => do pure (.grabMask (← h.toNat?))
   | ["hget", h, c] => do pure (.hget (← h.toNat?) (← parseCoord c))
   | ["hset", h, c, v] => do pure (.hset (← h.toNat?) (← parseCoord c) (← parseWVal v))
   | ["hdump", h] => do pure (.hdump (← h.toNat?))
@@ -240,7 +246,7 @@ def fmtInts (vs : List Int) : String := ",".intercalate (vs.map toString)
 
 def fmtWhy : Why → String
   | .dims => "dims" | .exists => "exists" | .clash => "clash" | .ufunc => "ufunc" | .mode => "mode" | .empty => "empty"
-  | .radius => "radius"
+  | .radius => "radius" | .size0 => "size0"
 
 def fmtErr : Err → String
   | .value w => "err Value " ++ fmtWhy w
@@ -268,6 +274,10 @@ def fmtOut : Out → String
   | .dt d => "ok dt=" ++ fmtDType d
   | .err e => fmtErr e
 
+/-- CAP of the scenario line: `0` = no capacity (`None`), `zero` = a capacity of 0, `N` = capacity N -/
+def parseCap (s : String) : Option (Option Nat) :=
+  if s = "0" then some none else if s = "zero" then some (some 0) else s.toNat?.map some
+
 def parseImpl : String → Option Impl
   | "new" => some .new
   | "single" => some .single
@@ -280,9 +290,14 @@ def stepLine (st : State × Geo) (ws : List String) : (State × Geo) × String :
       -- grid class and torus flag select which mesa class the harness instantiates; the model needs them only
       -- for neighbourhood masks (they are arguments of that op)
       if !(["moore", "vonneumann", "hex", "-"].contains gridclass) then (st, "bad-op") else
-      match parseImpl k, parseDims dims, cap.toNat?, parseFlag torus with
+      match parseImpl k, parseDims dims, parseCap cap, parseFlag torus with
       | some k, some dims, some cap, some torus => ((init k dims cap, ⟨gridclass, torus⟩), "ok")
       | _, _, _, _ => (st, "bad-op")
+  | ["rebind", l, h] =>
+      -- legacy `layer.data = <held array>`: a transition of the model that is not an `Op` (see Model/Layers.lean)
+      match l.toNat?, h.toNat? with
+      | some l, some h => let (st', o) := rebind st.1 l h; ((st', st.2), fmtOut o)
+      | _, _ => (st, "bad-op")
   | ws =>
       match parseOp st.1.dims st.1.impl st.2 ws with
       | none => (st, "bad-op")
@@ -297,5 +312,5 @@ partial def loop (h : IO.FS.Stream) (out : IO.FS.Stream) (st : State × Geo) : I
 
 def main : IO Unit := do
   let out ← IO.getStdout
-  loop (← IO.getStdin) out (init .new [1, 1] 0, ⟨"moore", false⟩)
+  loop (← IO.getStdin) out (init .new [1, 1] none, ⟨"moore", false⟩)
   out.flush
